@@ -104,6 +104,32 @@ def run_many(jobs, procs=None):
     return _pool.map(run_one, jobs, chunksize=max(1, len(jobs) // (procs * 8)))
 
 
+def _replay_chunk(words):
+    from sim import chanlife
+
+    out = []
+    for w in words:
+        try:
+            out.append(chanlife.replay(w))
+        except Exception:  # harness failure: report, never a verdict
+            import traceback
+
+            out.append({"harness_error": traceback.format_exc(), "ops": [list(o) for o in w]})
+    return out
+
+
+def run_chanlife(words, procs=None):
+    """replay ChanLife operation sequences on the real gateway pair, in the worker pool"""
+    global _pool
+    procs = procs or min(14, os.cpu_count() or 4)
+    if _pool is None:
+        ctx = mp.get_context("fork")
+        _pool = ctx.Pool(procs, initializer=_quiet, maxtasksperchild=400)
+    size = max(1, len(words) // (procs * 4))
+    chunks = [words[i:i + size] for i in range(0, len(words), size)]
+    return [r for part in _pool.map(_replay_chunk, chunks, chunksize=1) for r in part]
+
+
 def close_pool():
     global _pool
     if _pool is not None:
